@@ -39,7 +39,7 @@ func init() {
 					u = append(u, fmt.Sprintf("only %d non-trivial cases with consumer timing %s", m.C("nontrivial_"+t), t))
 				}
 			}
-			for _, c := range []string{"opexec_events", "loop_events", "tryeval_event_runs", "failed_applications_seen", "andor_applications_seen", "mode_debug", "mode_report_event", "events_retained_across_evaluations", "race_evaluations", "race_events_formatted"} {
+			for _, c := range []string{"opexec_events", "loop_events", "tryeval_event_runs", "failed_applications_seen", "andor_applications_seen", "mode_debug", "mode_report_event", "events_retained_across_evaluations", "handle_debug_event_runs", "race_evaluations", "race_events_formatted"} {
 				if m.C(c) == 0 {
 					u = append(u, c+" = 0")
 				}
@@ -241,6 +241,28 @@ func c12Run(w *W, idx int) {
 		return
 	}
 	w.Sample(stratum, src)
+	if idx%40 == 7 && tree.Size() < 60 {
+		// the library's own consumer: HandleDebugEvent prints every event; the evaluation must be undisturbed
+		for _, b := range genBindings(r, tree, 2, 0) {
+			po, _ := callExpr(plain.E, CallEval, fetcherFor(b, nil), nil, false)
+			// a separately compiled instance and an unbuffered channel: HandleDebugEvent's goroutine reads the
+			// EventChan field when it starts, the first (blocking) send guarantees it holds this channel
+			hv, ok := compileVariant(w, tree, src, ecfg, "handle-debug-event")
+			if !ok {
+				break
+			}
+			ch := make(chan eval.Event)
+			hv.E.EventChan = ch
+			eval.HandleDebugEvent(hv.E)
+			eo := guard(func() (eval.Value, error) { return hv.E.Eval(&eval.Ctx{VariableFetcher: fetcherFor(b, nil)}) })
+			close(ch)
+			w.Evals += 2
+			w.Inc("handle_debug_event_runs")
+			if !outcomeEq(po, eo) {
+				w.Fail("event-mode-changes-result/HandleDebugEvent", "with HandleDebugEvent as consumer: plain gives %s, event mode gives %s\n%s", po, eo, describeCase(src, ecfg, b))
+			}
+		}
+	}
 	if plain.Dump != evv.Dump {
 		w.Fail("event-mode-changes-dump", "Dump differs between the plain and the event-mode program\nsource: %s\nconfig: %s\nplain:  %s\nevents: %s", src, ecfg, oneLine(plain.Dump), oneLine(evv.Dump))
 	}
